@@ -264,6 +264,18 @@ impl<'tcx> Runner<'tcx> {
                     me.ip.atom_names.insert(a, format!("{}[{}]", key, counter));
                     n.lin = Some(Rc::new(Lin::atom(a)));
                 }
+                Some("bits") if i.ty.bits == 8 && !i.ty.signed => {
+                    // every bit of the byte is a boolean atom: byte = sum 2^k * bit_k
+                    let mut terms = Vec::new();
+                    for k in 0..8 {
+                        let a = me.ip.fresh_atom(st, 0, 1, None);
+                        me.ip.atom_names.insert(a, format!("{}[{}].{}", key, counter, k));
+                        terms.push((a, 1i128 << k));
+                    }
+                    n = IntV::new(0, 255, i.ty);
+                    n.taint = i.taint;
+                    n.lin = Some(Rc::new(Lin { m: 0, d: 0, terms }));
+                }
                 _ => {}
             }
             counter += 1;
@@ -277,7 +289,7 @@ impl<'tcx> Runner<'tcx> {
             Val::Tuple(t) => Val::Tuple(Rc::new(t.iter().map(|x| self.map_ints(st, x, f)).collect())),
             Val::Arr(a) => {
                 let mut r = ArrV::uniform(Val::Bot, a.len);
-                if a.len <= 16 || (self.big_atoms && a.len <= 4096) {
+                if a.len <= 16 || (self.big_atoms && a.len <= 16384) {
                     for i in 0..a.len {
                         let e = self.map_ints(st, a.get(i), f);
                         r.over.insert(i, e);
@@ -411,7 +423,43 @@ impl<'tcx> Runner<'tcx> {
                             _ => continue,
                         };
                     }
-                    if let Ok(r) = self.ip.call_instance(s.clone(), inst2, vec![arg]) {
+                    let mut s2 = s.clone();
+                    let argv: Vec<Val> = if job.opts.contains_key("then.spread") {
+                        // the payload tuple becomes the argument list (values are passed by reference through fresh
+                        // input slots), optionally after constant integer arguments `then.prefix=v:i32,...`
+                        let mut av: Vec<Val> = Vec::new();
+                        if let Some(p) = job.opts.get("then.prefix") {
+                            for item in p.split(',') {
+                                let (v, _t) = item.split_once(':').unwrap_or((item, "i32"));
+                                if let Ok(c) = v.parse::<i128>() {
+                                    av.push(Val::Int(IntV::konst(c, ITy::I32)));
+                                }
+                            }
+                        }
+                        match &arg {
+                            Val::Tuple(t) => {
+                                for (k, e) in t.iter().enumerate() {
+                                    // Option<T> payloads: continue with the Some value
+                                    let e = match e {
+                                        Val::Enum(en) if en.variants.keys().all(|k| *k <= 1) && en.variants.get(&1).map(|f| f.len() == 1).unwrap_or(false) => &en.variants[&1][0],
+                                        other => other,
+                                    };
+                                    match e {
+                                        Val::Ref(_) | Val::Slice { .. } => av.push(e.clone()),
+                                        other => {
+                                            let p = self.new_input(&mut s2, &format!("chain{}", k), other.clone());
+                                            av.push(Val::Ref(p));
+                                        }
+                                    }
+                                }
+                            }
+                            _ => continue,
+                        }
+                        av
+                    } else {
+                        vec![arg]
+                    };
+                    if let Ok(r) = self.ip.call_instance(s2, inst2, argv) {
                         out2.extend(r);
                     }
                 }
@@ -704,6 +752,34 @@ pub fn run<'tcx>(tcx: TyCtxt<'tcx>) -> String {
                                                 J::Int(i.lo), J::Int(i.hi)]),
                         None => J::Null,
                     }).collect())
+                }
+                _ => J::Null,
+            },
+            "bytes_identity" => match (&v, job.opts.get("bytes_identity")) {
+                (Some(Val::Arr(a)), Some(key)) if a.len <= 8192 => {
+                    // output byte i must be exactly  sum_k 2^k * <key>[i].k  (the bits of input byte i)
+                    let names = &rn.ip.last_atom_names;
+                    let mut same = 0i128;
+                    let mut bad: Vec<J> = Vec::new();
+                    for i in 0..a.len {
+                        let ok = match a.get(i) {
+                            Val::Int(x) => match &x.lin {
+                                Some(l) if l.m == 0 && l.d == 0 && l.terms.len() == 8 => {
+                                    let mut got: Vec<(String, i128)> = l.terms.iter().map(|t| (names.get(&t.0).cloned().unwrap_or_default(), t.1)).collect();
+                                    got.sort_by_key(|t| t.1);
+                                    (0..8).all(|k| got[k].1 == (1i128 << k) && got[k].0 == format!("{}[{}].{}", key, i, k))
+                                }
+                                _ => false,
+                            },
+                            _ => false,
+                        };
+                        if ok {
+                            same += 1;
+                        } else if bad.len() < 4 {
+                            bad.push(J::Arr(vec![J::i(i as i128), J::s(a.get(i).short())]));
+                        }
+                    }
+                    jobj! {"bytes" => J::i(a.len as i128), "identical" => J::Int(same), "first_different" => J::Arr(bad)}
                 }
                 _ => J::Null,
             },
